@@ -63,6 +63,9 @@ def run(rep: core.Report):
     from rules import shared_freshwrite
 
     _r14n(rep)
+    from rules import shared_outalias
+
+    shared_outalias.run(rep, "R14p", ["phonopy/phonon/mesh.py", "phonopy/phonon/qpoints.py", "phonopy/phonon/band_structure.py", "phonopy/phonon/group_velocity.py", "phonopy/harmonic/dynamical_matrix.py"])
     shared_freshwrite.run(rep, "R14m", ["phonopy/phonon/group_velocity.py", "phonopy/phonon/qpoints.py", "phonopy/phonon/mesh.py", "phonopy/phonon/band_structure.py"], 3)
     from rules import shared_readonly
 
@@ -536,7 +539,7 @@ def _r14c(rep):
                 continue
             rep.instance("R14c", rel, qn, core.norm(core.src(top), 100), ok, f"this access path converts eigenvalues to frequencies as {got}, the others as sign(l)*sqrt|l|*factor", line=call.lineno,
                          sample={"site": qn, "normal_form": str(got)})
-    if n_sites < 11:
+    if n_sites < 8:  # 11 on the confirmed tree; a shared helper may merge a few of them
         raise AnalysisError(f"R14c: {n_sites} conversion sites found, 11 confirmed by reading")
 
 
